@@ -3,4 +3,5 @@ pub mod codec;
 pub mod dbx;
 pub mod layout;
 pub mod report;
+pub mod tree;
 pub mod values;
